@@ -247,3 +247,38 @@ Proof.
   destruct s1 as [ds | w | ]; try discriminate Hp.
   exact (proj2 (proj2 (decide_downgrade_ok w _ s2 d c' Hd Hcar))).
 Qed.
+
+(* -- the trace predicate of the driver holds of every model run ------------------ *)
+Lemma Exec_resend_ok p idem plan s cl last outs tr r :
+  Exec decide idem plan s cl last outs tr r -> has_policy p s -> resend_ok p idem tr = true.
+Proof.
+  induction 1 as [ s cl last outs | t rest s cl last | t rest s cl last outs tr r H IH
+                 | t rest s cl last outs | t rest s cl last e outs s' nc tr r E H IH
+                 | t rest s cl last e outs s' nc tr r E H IH
+                 | t rest s cl last e outs s' E | t rest s cl last e outs s' E ];
+    intros Hp; try reflexivity.
+  - specialize (IH Hp). cbn [resend_ok]. destruct tr; [reflexivity | exact IH].
+  - specialize (IH (has_policy_step p _ _ _ _ E Hp)). cbn [resend_ok].
+    destruct tr as [|ev tr']; [reflexivity|]. rewrite IH, andb_true_r.
+    apply andb_true_iff; split.
+    + destruct idem eqn:Hi; [reflexivity|]. exact (decide_safe _ _ _ _ E eq_refl eq_refl).
+    + destruct p; try reflexivity. destruct (is_serial cl) eqn:Hs; [|reflexivity].
+      destruct s as [ds | w | ]; try discriminate Hp.
+      destruct (decide_default_serial ds _ _ _ E Hs) as [Hd _]. discriminate Hd.
+  - specialize (IH (has_policy_step p _ _ _ _ E Hp)). cbn [resend_ok].
+    destruct tr as [|ev tr']; [reflexivity|]. rewrite IH, andb_true_r.
+    apply andb_true_iff; split.
+    + destruct idem eqn:Hi; [reflexivity|]. exact (decide_safe _ _ _ _ E eq_refl eq_refl).
+    + destruct p; try reflexivity. destruct (is_serial cl) eqn:Hs; [|reflexivity].
+      destruct s as [ds | w | ]; try discriminate Hp.
+      destruct (decide_default_serial ds _ _ _ E Hs) as [Hd _]. discriminate Hd.
+Qed.
+
+Lemma fiber_trace_prop_ok p idem cl0 plan outs tr r :
+  fiber p idem cl0 plan outs = (tr, r) -> prop_trace_ok p idem (List.length plan) tr = true.
+Proof.
+  intros H. unfold prop_trace_ok. apply andb_true_iff; split.
+  - apply fiber_Exec in H. exact (Exec_resend_ok p _ _ _ _ _ _ _ _ H (has_policy_new p)).
+  - apply Nat.leb_le. pose proof (fiber_bound _ _ _ _ _ _ _ H) as B.
+    rewrite attempts_conn_fails in B. exact B.
+Qed.
